@@ -441,6 +441,23 @@ func ExploreEpochs(c *core.Ctx, rep Report, light bool) {
 			}
 		})
 	}
+	// corpus DAGs: every sealing frame, every kind
+	{
+		cd, cn := CorpusDAGs()
+		for i, d := range cd {
+			full, _ := d.Blocks(d.Full(), 0)
+			for s := 1; s <= len(full); s++ {
+				for _, kind := range kinds {
+					item++
+					if !c.Mine(item) || c.OutOfBudget() {
+						continue
+					}
+					c.Count("corpus_epoch_scenarios", 1)
+					CheckEpochs(c, d, "epochs: "+cn[i], s, kind, 3, rep, cfgs[item%len(cfgs)])
+				}
+			}
+		}
+	}
 	// a sleeping validator returning with stale knowledge while the first election is split: late multi-frame
 	// roots that decide frames (and cascades of decisions) in the sealed epoch
 	var sleepers []SleeperCfg // thorough only: ~5k DAGs x seal frames
